@@ -12,45 +12,65 @@ PROOF_AX = ("Coq 8.16.1 kernel incl. vm_compute (no native_compute); axioms per 
             "differential testing, not proof; rustc/LLVM/hardware IEEE arithmetic modelled, not verified.")
 
 # id -> (category, technique, text, note)
+E2E = ("Main theorem parse_float_correct (coq/proofs/EndToEnd6.v; props/C01.v): for all 8 shipped configurations, f32 and f64, "
+       "release and debug-assertion+overflow-check build modes, every valid input of at most 2^28 digits and EVERY i32 exponent, "
+       "the Gallina model of parse_float returns Ok (RN f (exact decimal value)), RN = Flocq round-to-nearest-even on the FLT format "
+       "of the regenerated constants, +inf from 2^emax. Unconditional for the 4 compact (Bellerophon) configurations. For the 4 "
+       "Eisel-Lemire configurations %s "
+       "Composed from: parse_number closed form; fast path = Flocq Bmult/Bdiv; Eisel-Lemire soundness for every (w,q) "
+       "(integers only, no axioms, incl. the 'no unrefined false tie' fact proved by modular inverses on the regenerated table); "
+       "Bellerophon forward error analysis; declined-estimate lemmas; big-integer slow path (parse_mantissa, the 768-digit "
+       "truncation argument, positive/negative digit comparison, 62-limb capacity); final rounding; saturated exponents. ")
+DEEP_OPEN = ("one residual premise remains (deep_ok: a declined estimate never has a biased exponent below -64; it can only fail if "
+             "compute_float's all-ones fallback fired on a value below 2^(femin-2)); it is stated explicitly in every theorem, is not "
+             "needed without debug assertions, and is attacked by the directed search of the check (all-ones fallback witnesses for every q).")
+DEEP_CLOSED = "the premise deep_ok is discharged by no_deep_fallback (verified modular search, coq/proofs/DeepFallback*.v)."
+import os
+DEEP = DEEP_CLOSED if os.path.exists('/verif/coq/proofs/.deep_closed') else DEEP_OPEN
+E2E = E2E % DEEP
+E2E_CAT = 'proof' if os.path.exists('/verif/coq/proofs/.deep_closed') else 'other'
+TIE = ("The model is tied to /repo on every run: constants/tables/on-demand powers are re-dumped from the compiled crate and the "
+       "proofs re-checked against them; the hand-written model is run against the real code (8 configurations x 2 build modes) on "
+       "directed generators (exact midpoints at depths 1..10^6, closest approaches for every q, algebraic ties, fallback witnesses, "
+       "fast-path fence posts incl. wrapped products, every decade, deep binades, saturation, zero-limb big integers) and every "
+       "result is also judged against an exact rational oracle.")
 P = {
- 'C01': ('other', 'Coq theorems on a Gallina model of parse_float + model/code correspondence + exact-oracle search',
-         "Partial proof. Proved in Coq (props/C01.v): the meaning of the oracle RN (Flocq round-to-nearest-even on FLT), "
-         "parse_number's value bracket, the shift-and-round primitive (C18), big-integer exactness (C12), table exactness (C14). "
-         "Not yet proved: soundness of Eisel-Lemire/Bellerophon and the slow-path comparison, so the end-to-end theorem is not closed; "
-         "those stages are attacked on every run by directed generators (exact midpoints, closest approaches, fallback witnesses) against "
-         "the exact rational oracle on all 8 configurations x 2 build modes, and the model is diffed against the code.", PROOF_AX),
- 'C02': ('other', 'Coq theorems on a Gallina model of parse_float + model/code correspondence + exact-oracle search',
-         "As C01 for binary32; the model computes f32 directly (no f64 detour) and the correspondence pins the code to it, "
-         "incl. fast-path fence posts at 2^24+-1.", PROOF_AX),
- 'C03': ('other', 'Coq theorems about RN (fixed points) + correspondence on Rust-rendered floats',
-         "Spec-level theorems about RN in Coq (finite floats are fixed points of RN) + differential run of shortest / 9-17 digit / exact "
-         "renderings produced by Rust's own formatter; end-to-end inherits the open parts of C01/C02.", PROOF_AX),
- 'C04': ('other', 'Coq model with explicit Panic outcomes + correspondence in release and checked builds',
-         "The model makes every overflow check, debug assertion, unwrap and index an explicit Panic outcome; no closed no-panic theorem yet. "
-         "The check runs valid inputs (lengths to 10^6 in thorough, exponents to the i32 limits) on release and "
-         "debug-assertions+overflow-checks builds of all 8 configurations and diffs against the model.", PROOF_AX),
- 'C05': ('other', 'cross-configuration differential on the real code + Coq model per configuration',
-         "All 8 configurations of the real code are run on the same inputs and compared bit for bit (this found the compact defect, now fixed); "
-         "Coq: table/on-demand power equality across configurations (C14).", PROOF_AX),
- 'C06': ('other', 'Coq theorems on digit truncation + correspondence with deep-digit generators',
-         "parse_number bracket theorem (digits beyond the 19th only move the value inside [w,w+1)) proved; the 768-digit bound is checked "
-         "on the regenerated MAX_DIGITS; deep-digit ties / 9-tails / trailing zeros at depths 20..10^6 run against the exact oracle.", PROOF_AX),
- 'C07': ('other', 'Coq theorems on saturation and rounding thresholds + correspondence at range ends',
-         "Proved: shift-and-round incl. subnormals/overflow (C18). Directed cases at 2^-1075, 2^-1074, 2^-1022, 2^1024-2^970, "
-         "i32 limit exponents with compensating digit strings, zero significands.", PROOF_AX),
- 'C08': ('other', 'Coq model with explicit UB outcomes for unchecked sites + unsafe-site inventory + garbage-byte differential',
-         "Partial by nature: the model returns UB when an unchecked index/raw write leaves its side condition; arbitrary bytes are run through "
-         "model and code (outcome class and value), the unsafe-site inventory of /repo/src is diffed against the one the model was written "
-         "against; Miri in the thorough tier. Machine-level memory behaviour is observed, not proved.", PROOF_AX),
- 'C09': ('other', 'Coq: RN monotone (spec level) + ordered-pair differential on the real code',
-         "Monotonicity of the oracle proved in Coq from Flocq; adjacent pairs across every algorithm switch-over are compared on the real code directly.", PROOF_AX),
- 'C10': ('other', 'Coq: RN invariant under equal rationals + re-splitting differential',
-         "All re-splittings of a digit sequence with compensating exponent and appended zeros must give identical bits on every configuration; "
-         "model diffed against code.", PROOF_AX),
- 'C11': ('other', 'Coq model of both moderate stages + refinement correspondence + number-theoretic search',
-         "No closed soundness theorem yet for Eisel-Lemire/Bellerophon; per-q table facts proved (C14). The stage is called directly on "
-         "closest approaches, algebraic ties, all-ones fallback witnesses for every q and judged against exact rationals; correspondence is "
-         "refinement (impl may decline more).", PROOF_AX),
+ 'C01': (E2E_CAT, 'Coq end-to-end theorem parse_float_correct on a Gallina model + model/code correspondence + exact-oracle search',
+         "f64: " + E2E + TIE, PROOF_AX),
+ 'C02': (E2E_CAT, 'Coq end-to-end theorem parse_float_correct on a Gallina model + model/code correspondence + exact-oracle search',
+         "f32 (the model computes f32 directly, no f64 detour): " + E2E + TIE, PROOF_AX),
+ 'C03': (E2E_CAT, 'Coq: end-to-end corollaries (exact, 17/9-digit round trips) + Matula digit sufficiency proved at the oracle level + correspondence on Rust-rendered floats',
+         "C03_roundtrip_exact / _17_digits / _9_digits (props/C03.v): any rendering whose value is exactly x, or within half a unit of the 17th/9th "
+         "significant digit of x, parses back to x; a shortest identifying decimal of <= 17/9 digits exists. Corollaries of: " + E2E +
+         "Renderings (shortest, 9/17 digits, exact) produced by Rust's own formatter are run through the real code on every run.", PROOF_AX),
+ 'C04': (E2E_CAT, 'Coq: no-panic as a corollary of the end-to-end theorem (every overflow check, debug assertion, unwrap, index and the 62-limb capacity is an explicit Panic outcome of the model) + correspondence in release and checked builds',
+         "C04_no_panic (props/C04.v), for both build modes. Corollary of: " + E2E + "The check runs valid inputs (lengths to 10^6 in thorough, exponents to the i32 "
+         "limits) on release and debug-assertions+overflow-checks builds of all 8 configurations.", PROOF_AX),
+ 'C05': (E2E_CAT, 'Coq: configuration independence as a corollary of the end-to-end theorem + bit-for-bit cross-configuration differential on the real code',
+         "C05_config_independent (props/C05.v) for any two shipped configurations and build modes. Corollary of: " + E2E +
+         "All 8 configurations of the real code are run on the same inputs and compared bit for bit (this found the compact defect, now fixed).", PROOF_AX),
+ 'C06': (E2E_CAT, 'Coq: end-to-end theorem for inputs of up to 2^28 digits + the MAX_DIGITS truncation argument + correspondence with deep-digit generators',
+         "props/C06.v: parse_number keeps 19 digits + flag, parse_mantissa keeps MAX_DIGITS digits + one sticky digit, truncation_preserves_rounding "
+         "(every rounding boundary has <= MAX_DIGITS significant digits; side condition computed on the regenerated constant: f64 needs >= 768), "
+         "far_digit_breaks_tie, nines_below_tie_round_down, trailing_zeros_irrelevant. " + E2E +
+         "Deep-digit ties / 9-tails / trailing zeros at depths 20..10^6 run against the exact oracle.", PROOF_AX),
+ 'C07': (E2E_CAT, 'Coq: thresholds, subnormals and saturated exponents as corollaries of the end-to-end theorem + correspondence at the range ends',
+         "C07_overflow_underflow, parse_float_far_small/large/zero (exponents to the i32 limits, where the decimal exponent saturates) (props/C07.v). " + E2E +
+         "Directed cases at 2^-1075, 2^-1074, 2^-1022, 2^1024-2^970, every binade 90 bits below / 70 above the range, i32-limit exponents with compensating digit strings.", PROOF_AX),
+ 'C08': ('other', 'Coq model with explicit UB outcomes for unchecked sites (no-UB theorems for parse_float on arbitrary bytes and for all vector histories) + unsafe-site inventory + garbage-byte differential',
+         "Partial by nature: parse_float_no_UB (any bytes, any exponent, 8 configurations; side condition on table lengths discharged on the regenerated tables) "
+         "and history_no_ub for the cell-level StackVec model; the machine-level behaviour of the compiled unsafe code is observed (garbage-byte differential on outcome class "
+         "and value, unsafe-site inventory of /repo/src diffed against the one the model was written against, Miri in the thorough tier), not proved.", PROOF_AX),
+ 'C09': (E2E_CAT, 'Coq: monotonicity as a corollary of the end-to-end theorem and RN_monotone + ordered-pair differential on the real code',
+         "C09_monotone (props/C09.v). " + E2E + "Adjacent pairs across every algorithm switch-over are compared on the real code directly.", PROOF_AX),
+ 'C10': (E2E_CAT, 'Coq: value invariance as a corollary of the end-to-end theorem and RN_Qeq + re-splitting differential',
+         "C10_value_invariant (props/C10.v): two valid inputs denoting the same rational give the same result. " + E2E +
+         "All re-splittings of a digit sequence with compensating exponent and appended zeros are run on every configuration.", PROOF_AX),
+ 'C11': ('proof', 'Coq: soundness theorems for both implementations of the stage (Eisel-Lemire: integers only, no axioms; Bellerophon: forward error analysis) for every (w, q, truncated) + refinement correspondence + number-theoretic search',
+         "props/C11.v: compute_float_sound_all (every w in u64, every q, both builds: never a panic; a definite answer is rne_bits of w*10^q), lemire_sound (truncated: definite only "
+         "if the answers at w and w+1 coincide), bellerophon_sound (the full statement incl. the truncated range), on the regenerated tables. Outside the theorems' hypotheses "
+         "are exactly the API-only corners listed in KNOWN_FINDINGS (F2a/b/c: truncated with w = 0, u64::MAX, or < 2^40 for Bellerophon), which parse_float cannot produce. "
+         "The stage is also called directly on closest approaches, algebraic ties, fallback witnesses, degenerate products for every q and judged against exact rationals.", PROOF_AX),
  'C12': ('proof', 'Coq: induction over limb lists - value of the result = the operation on naturals, None <-> result does not fit (37 theorems) + limb-for-limb correspondence on both back-ends',
          "Closed theorems (props/C12.v, no axioms) over the list-of-limbs model for every operation the property lists: small add/mul, large add, long/large mul, pow by 5/10 (135/27/table decomposition, on the regenerated tables, compact and non-compact), shifts, compare, normalise, bit length, hi64 + sticky flag, from_u64; for the fixed-capacity back-end failure is reported exactly when B64^62 <= exact result (normalised operands), and the state left behind by a failed small op is characterised. Hold for arbitrary build mode. The model is tied to the code by running both on carry-chain patterns at and one limb past capacity, both back-ends, release and checked builds, and against Python integers.", PROOF_AX),
  'C13': ('proof', 'Coq: refinement of a cell-level model of StackVec (62 MaybeUninit cells + u16 length, raw writes/copies/set_len with UB outcomes) to a bounded sequence, lifted to all histories by induction + history correspondence of both models with the code',
@@ -62,16 +82,20 @@ P = {
  'C15': ('other', 'counting global allocator + nm on the rlib + allocation-construct inventory',
          "Partial by nature: allocation is a runtime effect. Counting allocator around every call in all non-alloc builds, symbol check of the "
          "compiled library, inventory of allocation-capable constructs tied to the model's storage selection.", PROOF_AX),
- 'C16': ('other', 'Coq model is a function of the byte lists by construction + iterator-shape / history / thread differential',
-         "Partial by nature: a Gallina function cannot depend on addresses or schedules; the check feeds every input through 10 iterator "
-         "shapes, stack-poisoning histories and 16 threads on the real code and compares bit for bit.", PROOF_AX),
+ 'C16': ('other', 'Coq: the parser over an abstract cursor equals the list-level parser for every fused cursor and every denotation-preserving clone (iterator-protocol independence) + iterator-shape / stack-poisoning / thread differential on the real code',
+         "Partial by nature (addresses, stack residue and thread schedules cannot be expressed in Gallina). props/C16.v: it_parse_float_general / _fused / iter_shape_independent / "
+         "clone_independent (model/Iter.v follows the Rust call by call: clones, count(), next() after None); the fused hypothesis is shown necessary and the two places where the "
+         "code calls next() after a None are pinned down. The check feeds every input through 10 iterator shapes, stack-poisoning histories and 16 threads on the real code, incl. "
+         "slow-path inputs with zero low limbs, and compares bit for bit.", PROOF_AX),
  'C17': ('proof', 'Coq: theorems generic in the format record under a boolean side condition discharged on the regenerated F32/F64 constants (25 theorems, all bit patterns) + agreement with the IEEE-754 decoder of Flocq + correspondence',
          "Closed theorems (props/C17.v) for every bit pattern 0 <= x < 2^fbits (no enumeration: generic in the format, side condition fmt_ok computed on the constants dumped from the compiled crate): subnormal detection, exponent(), mantissa(), mantissa*2^exponent = magnitude (as the decoded SpecFloat value, and as Flocq B2R of Flocq's own binary_float_of_bits), to_bits/from_bits lossless, packing (biased exponent, fraction) incl. the overlapping hidden bit, b / b+h, order of patterns = order of values. Both build modes. Code tied by L1f correspondence (all 2^32 f32 patterns in the thorough tier).", PROOF_AX),
  'C18': ('proof', 'Coq: closed form of round / round_nearest_tie_even / round_down over Z, then equality with Flocq round-to-nearest-even (and Zfloor) on FLT and with the oracle RN, for all significands and exponents in range (20 theorems) + correspondence on every exponent',
          "Theorems (props/C18.v): for every significand in [2^63,2^64), every biased exponent in [-63,2^30] (covers [-63,2100]/[-63,320]), any build mode: round + round_nearest_tie_even never panics and its packed result equals RN f (significand*2^(exp-bias)) [C18_round_nearest_RN], equals Flocq round ZnearestE / SpecFloat.binary_normalize, incl. subnormals, promotion to the smallest normal, carry, overflow; truncating variant = Flocq Zfloor rounding below 2^emax and the infinity fields from 2^emax on (this deviation from 'largest float not above' is KNOWN_FINDINGS F3, proved as C18_round_down_correct); mask helpers for all widths 0..64. Format constants are the regenerated ones via rfmt_ok. Code tied by L1r correspondence on every exponent x 10-40 significand patterns.", PROOF_AX),
- 'C19': ('other', 'Coq theorems on the lexer model + correspondence on the four shipped front-end copies',
-         "Lexer decomposition / exponent saturation theorems; the repository's own front-end files are compiled into the harness (not transcribed) "
-         "and diffed against the model on grammar-derived and arbitrary byte strings.", PROOF_AX),
+ 'C19': (E2E_CAT, 'Coq: lexer theorems (grammar decomposition, maximal munch, exponent saturation, trimming, special literals, totality) + front_end_value composing them with the end-to-end theorem + correspondence on the shipped front-end copies',
+         "props/C19.v: front_end_value - for every byte string of at most 2^28 bytes the front end returns the pattern of +-RN(value of the literal as written) and exactly the "
+         "unconsumed suffix (all 8 configurations, both formats, both build modes); lex_spec / lex_unique / lex_longest_prefix (the matched prefix is the longest word of the grammar), "
+         "parse_exponent_saturates, trim_preserves_value, special literals with the accepted bytes enumerated, front_end_total (no panic of its own on any bytes). " + E2E +
+         "The repository's own front-end files are compiled into the harness (not transcribed) and diffed against the model on grammar-derived and arbitrary byte strings.", PROOF_AX),
 }
 
 THOROUGH_NOTE = {}
